@@ -1,0 +1,67 @@
+//! Verification hooks (only compiled with `--cfg datacake_verif`).
+//!
+//! Provides a process-wide event sink with a global sequence number and an
+//! injectable wall clock. Nothing in here is reachable in a normal build.
+
+use std::sync::atomic::{AtomicU64, Ordering};
+use std::sync::Mutex;
+use std::time::Duration;
+
+static SEQ: AtomicU64 = AtomicU64::new(0);
+static SINK: Mutex<Option<Vec<String>>> = Mutex::new(None);
+static WALL: Mutex<WallState> = Mutex::new(WallState {
+    global: None,
+    per_node: [None; 256],
+});
+
+struct WallState {
+    global: Option<Duration>,
+    per_node: [Option<Duration>; 256],
+}
+
+/// Starts (or restarts) recording events.
+pub fn start_recording() {
+    *SINK.lock().unwrap() = Some(Vec::new());
+}
+
+/// Stops recording and returns the events recorded so far.
+pub fn take_events() -> Vec<String> {
+    SINK.lock().unwrap().take().unwrap_or_default()
+}
+
+/// Is a recorder installed.
+pub fn is_recording() -> bool {
+    SINK.lock().unwrap().is_some()
+}
+
+/// Emits one event. The closure receives the process-wide sequence number,
+/// which is allocated while the sink lock is held so that sequence order
+/// equals sink order.
+pub fn emit(f: impl FnOnce(u64) -> String) {
+    let mut lock = SINK.lock().unwrap();
+    if let Some(events) = lock.as_mut() {
+        let seq = SEQ.fetch_add(1, Ordering::SeqCst);
+        events.push(f(seq));
+    }
+}
+
+/// Allocates a sequence number without emitting anything.
+pub fn next_seq() -> u64 {
+    SEQ.fetch_add(1, Ordering::SeqCst)
+}
+
+/// Overrides the wall clock (datacake epoch based) seen by every clock.
+pub fn set_wall(wall: Option<Duration>) {
+    WALL.lock().unwrap().global = wall;
+}
+
+/// Overrides the wall clock seen by the clock of one node id.
+pub fn set_node_wall(node: u8, wall: Option<Duration>) {
+    WALL.lock().unwrap().per_node[node as usize] = wall;
+}
+
+/// The injected wall clock for `node`, if any.
+pub fn wall(node: Option<u8>) -> Option<Duration> {
+    let lock = WALL.lock().unwrap();
+    node.and_then(|n| lock.per_node[n as usize]).or(lock.global)
+}
